@@ -226,7 +226,8 @@ def run_case(case):  # noqa: C901
                 if v["sig"].get("cause") == "int-and-float32-operands-evaluated-in-float":
                     # the tagged variant is wrong against NumPy (to float32 precision) where the untagged one is right: the
                     # strategy decides whether the mixed int/float32 operation is evaluated in double or in float
-                    sig = {"kind": "tag-changes-value", "cause": "int-and-float32-operands-evaluated-in-c-float"}
+                    sig = {"kind": "tag-changes-value", "cause": "int-and-float32-operands-evaluated-in-c-float",
+                           "operand": v["sig"].get("operand")}
                 if (sig.get("where") == "loopy/target/c/codegen/expression.py:map_comparison" and sig.get("error") == "TypeError"
                         and any(s_[0] == "cmp" and any(isinstance(x, list) and x[:1] == ["py"] and isinstance(x[1], bool) for x in s_[2:])
                                 for _n, t_ in outs for s_ in T.all_subterms(t_))):
@@ -257,13 +258,13 @@ def run_case(case):  # noqa: C901
                            "tags": sorted({a[1][0] if isinstance(a[1], list) else a[1] for a in assignment})}
                     mixed = None
                     for _n, t_ in outs:
-                        mixed = mixed or progcheck.c_promotion_narrower(t_)
+                        mixed = mixed or progcheck.c_promotion_narrower(t_, progcheck.EINSUM_LIKE)
                     if mixed is not None and b[n].dtype == np.float64 and not values.compare(
                             got[n], b[n], scale=float(np.nanmax(np.abs(b[n]))) if b[n].size else 1.0, nred=8,
                             min_eps=float(np.finfo(np.float32).eps)):
                         # the two variants agree to float32 precision and the program mixes >=32-bit integers with float32:
                         # one of them evaluates in C float what NumPy evaluates in float64
-                        sig = {"kind": "tag-changes-value", "cause": "int-and-float32-operands-evaluated-in-c-float"}
+                        sig = {"kind": "tag-changes-value", "cause": "int-and-float32-operands-evaluated-in-c-float", **mixed}
                     viol.append({"sig": sig, "msg": f"{where}: output {n} valuation {val}: {bad}"})
         if len(viol) > 12:
             break
